@@ -206,7 +206,7 @@ func (c *Control) gate2(kind string, mut bool, detail, traceDetail string) (cras
 	if !mut {
 		idx := c.Reads
 		c.Reads++
-		if c.ErrAtRead[idx] {
+		if c.ErrAtRead[idx] || (c.ErrLen > 0 && c.ErrClass == "read" && idx >= c.ErrFrom && idx < c.ErrFrom+c.ErrLen) {
 			c.ErrFired++
 			c.logf("%s %s(%s) -> injected error", c.Name, kind, detail)
 			return false, ErrInjected
@@ -249,6 +249,8 @@ func (c *Control) gate2(kind string, mut bool, detail, traceDetail string) (cras
 
 func errClassHas(class, kind string) bool {
 	switch class {
+	case "read":
+		return false // reads have a counter of their own
 	case "rename":
 		return kind == "fs.Rename"
 	case "nospace":
@@ -265,6 +267,9 @@ func errClassHas(class, kind string) bool {
 func (c *Control) ArmErr(class string, k, n int) {
 	c.mu.Lock()
 	c.ErrClass, c.ErrFrom, c.ErrLen = class, c.Muts+k, n
+	if class == "read" {
+		c.ErrFrom = c.Reads + k
+	}
 	c.ErrFired = 0
 	c.mu.Unlock()
 }
